@@ -8,6 +8,7 @@ import PhreeqcVerif.Gen.RawTables
   keys <table>                   → `K key:status …`  status ∈ restored | dropped | cross | unknown | const
   failing                        → `F table:obligation,… …`
   tables                         → `T name …`
+  merge <this> <source>          → `M hexname:value,…`   cxxNameDouble::merge_redox; maps as `hexname:value,…` (`-` = empty), result in key order
 -/
 namespace Driver.Raw
 open PhreeqcVerif PhreeqcVerif.Util PhreeqcVerif.Raw PhreeqcVerif.Gen.Raw
@@ -27,6 +28,17 @@ def statusOf (t : ClassTab) (k : WKey) : String :=
     if c.kind == .error then "unknown"
     else if !subset c.sinks k.members then "cross"
     else if subset k.members c.sinks then "restored" else "dropped"
+
+def parseND (s : String) : Option (NameDouble String) :=
+  if s == "-" then some [] else
+  (s.splitOn ",").mapM fun item =>
+    match item.splitOn ":" with
+    | [k, v] => (unhexStr k).map fun k' => (k', v)
+    | _ => none
+
+def showND (m : NameDouble String) : String :=
+  let sorted := m.toArray.qsort (fun a b => a.1 < b.1) |>.toList
+  if sorted.isEmpty then "M -" else "M " ++ ",".intercalate (sorted.map fun e => s!"{hexStr e.1}:{e.2}")
 
 def answer (line : String) : String :=
   match words line with
@@ -52,6 +64,10 @@ def answer (line : String) : String :=
   | ["failing"] =>
     "F " ++ " ".intercalate ((allTables.filter fun t => !(failing allTables t).isEmpty).map fun t =>
       s!"{t.name}:{",".intercalate (failing allTables t)}")
+  | ["merge", a, b] =>
+    match parseND a, parseND b with
+    | some m, some src => showND (mergeRedox m src)
+    | _, _ => "bad-op"
   | ["tables"] => "T " ++ " ".intercalate (allTables.map (·.name))
   | _ => "bad-op"
 
